@@ -182,12 +182,14 @@ theorem detCollect_contract (name : Obj) (keys : List Key) (d : DetSt) (index : 
     · simp at ha
     · simp at ha
   · split at ha
-    · simp only [List.mem_map] at ha
+    next hgt =>
+      simp only [List.mem_map] at ha
       obtain ⟨ik, _, hik⟩ := ha
       simp only [Asset.datum.injEq] at hik
       obtain ⟨_, _, h3, h4, h5, h6⟩ := hik
-      exact ⟨by rw [← h5]; split <;> simp, h4.symm, h3.symm, h6.symm⟩
-    · simp at ha
+      have hm : max index d.last = index := Nat.max_eq_left (Nat.le_of_lt (by simpa using hgt))
+      exact ⟨by rw [← h5, hm]; split <;> simp, h4.symm, h3.symm, h6.symm⟩
+    next => simp at ha
 
 theorem mem_zip_replicate {α β : Type} (l : List α) (b : β) (k : Nat) (p : α × β)
     (h : p ∈ l.zip (List.replicate k b)) : p.2 = b := by
